@@ -283,6 +283,55 @@ impl<'a> Rules<'a> {
 }
 
 impl<'a> VisitMut for Rules<'a> {
+    fn visit_field_value_mut(&mut self, fv: &mut syn::FieldValue) {
+        // R22m: a struct field listed in opts.map_fields initialised with `M.iter().map(|(k, v)| (K, V)).collect()` over a listed map ->
+        // a new insertion-ordered map filled by inserting (K, V) for the entries of M in order (FromIterator for IndexMap)
+        if self.ctx.on("R22") {
+            let fname = match &fv.member { syn::Member::Named(i) => i.to_string(), _ => String::new() };
+            let listed = self.ctx.opts["map_fields"].as_array().map(|a| a.iter().any(|v| v.as_str() == Some(&fname))).unwrap_or(false);
+            if listed {
+                if let syn::Expr::MethodCall(col) = &fv.expr {
+                    if col.method == "collect" {
+                        if let syn::Expr::MethodCall(map) = &*col.receiver {
+                            if map.method == "map" && map.args.len() == 1 {
+                                if let (syn::Expr::Closure(cl), syn::Expr::MethodCall(it)) = (&map.args[0], &*map.receiver) {
+                                    if it.method == "iter" && it.args.is_empty() && cl.inputs.len() == 1 && is_r13_map(self.ctx, &it.receiver) {
+                                        // the closure body may be the tuple itself or a block holding only the tuple
+                                        let body_expr: &syn::Expr = match &*cl.body { syn::Expr::Block(bl) if bl.block.stmts.len() == 1 => match &bl.block.stmts[0] { syn::Stmt::Expr(inner, None) => inner, _ => &*cl.body }, other => other };
+                                        if let (syn::Pat::Tuple(tp), syn::Expr::Tuple(body)) = (&cl.inputs[0], body_expr) {
+                                            if tp.elems.len() == 2 && body.elems.len() == 2 {
+                                                let src = &it.receiver;
+                                                let (kp, vp) = (&tp.elems[0], &tp.elems[1]);
+                                                let (ke, ve) = (&body.elems[0], &body.elems[1]);
+                                                let k = self.ctx.fresh();
+                                                let mm = syn::Ident::new(&format!("vx_m{}", k), proc_macro2::Span::call_site());
+                                                let nn = syn::Ident::new(&format!("vx_n{}", k), proc_macro2::Span::call_site());
+                                                let ii = syn::Ident::new(&format!("vx_i{}", k), proc_macro2::Span::call_site());
+                                                let kv = syn::Ident::new(&format!("vx_kv{}", k), proc_macro2::Span::call_site());
+                                                fv.expr = syn::parse_quote!({
+                                                    let mut #mm = SMap::new();
+                                                    let #nn = #src.len();
+                                                    for #ii in 0..#nn {
+                                                        let #kv = #src.get_index(#ii).unwrap();
+                                                        let #kp = #kv.0;
+                                                        let #vp = #kv.1;
+                                                        #mm.insert(#ke, #ve);
+                                                    }
+                                                    #mm
+                                                });
+                                                self.ctx.used("R22");
+                                            }
+                                        }
+                                    }
+                                }
+                            }
+                        }
+                    }
+                }
+            }
+        }
+        syn::visit_mut::visit_field_value_mut(self, fv);
+    }
     fn visit_local_mut(&mut self, l: &mut syn::Local) {
         // R22 with a declared target type: `let v: Vec<T> = A.iter().map(..).collect();` keeps the annotation on the accumulator
         if self.ctx.on("R22") {
@@ -1307,6 +1356,61 @@ impl<'a> VisitMut for Rules<'a> {
                     syn::Expr::Reference(r) if r.mutability.is_none() => (Some((*r.expr).clone()), "ref"),
                     other => (Some(other.clone()), "val"),
                 };
+                // R13n: `for (k, v) in M` over a `&mut` map listed with mode `mutv`: the value is copied out, the body runs on the copy (method calls on
+                // `v`), and the copy is written back at the same position at the end of the body and in front of every `continue` of this loop
+                if let syn::Pat::Tuple(tp) = &*fl.pat {
+                    let rtxt = norm(&fl.expr.to_token_stream().to_string());
+                    let is_mutv = self.ctx.opts["r13_maps"].as_array().map(|a| a.iter().any(|v| v.as_str().map(|t| norm(t) == format!("{}:mutv", rtxt)).unwrap_or(false))).unwrap_or(false);
+                    if is_mutv && tp.elems.len() == 2 {
+                        if let (syn::Pat::Ident(kid), syn::Pat::Ident(vid)) = (&tp.elems[0], &tp.elems[1]) {
+                            let recv = (*fl.expr).clone();
+                            let k = self.ctx.fresh();
+                            let nn = syn::Ident::new(&format!("vx_n{}", k), proc_macro2::Span::call_site());
+                            let ii = syn::Ident::new(&format!("vx_i{}", k), proc_macro2::Span::call_site());
+                            let cc = syn::Ident::new(&format!("vx_c{}", k), proc_macro2::Span::call_site());
+                            let vv = syn::Ident::new(&format!("vx_v{}", k), proc_macro2::Span::call_site());
+                            let kk = syn::Ident::new(&format!("vx_k{}", k), proc_macro2::Span::call_site());
+                            let mut body = fl.body.clone();
+                            let cur: syn::Expr = syn::parse_quote!(#vv);
+                            let mut dr = DerefReplacer { ident: vid.ident.to_string(), rep: cur.clone(), n: 0 };
+                            dr.visit_block_mut(&mut body);
+                            let mut pr = PathReplacer { ident: vid.ident.to_string(), rep: cur };
+                            pr.visit_block_mut(&mut body);
+                            // write back in front of every `continue` that belongs to this loop
+                            struct ContinueFix { recv: syn::Expr, cc: syn::Ident, vv: syn::Ident }
+                            impl VisitMut for ContinueFix {
+                                fn visit_expr_mut(&mut self, e: &mut syn::Expr) {
+                                    match e {
+                                        syn::Expr::ForLoop(_) | syn::Expr::While(_) | syn::Expr::Loop(_) | syn::Expr::Closure(_) => {}
+                                        syn::Expr::Continue(_) => { let (r, c, v) = (&self.recv, &self.cc, &self.vv); *e = syn::parse_quote!({ #r.set_index(#c, #v); continue; }); }
+                                        _ => syn::visit_mut::visit_expr_mut(self, e),
+                                    }
+                                }
+                            }
+                            ContinueFix { recv: recv.clone(), cc: cc.clone(), vv: vv.clone() }.visit_block_mut(&mut body);
+                            let kpat = &kid.ident;
+                            let stmts = &body.stmts;
+                            let label = fl.label.clone();
+                            let new: syn::Expr = syn::parse_quote!({
+                                let #nn = #recv.len();
+                                let mut #ii: usize = 0;
+                                #label while #ii < #nn {
+                                    let #cc = #ii;
+                                    #ii = #ii + 1;
+                                    let #kk = #recv.get_index(#cc).unwrap().0.clone();
+                                    let #kpat = &#kk;
+                                    let mut #vv = #recv.value_at(#cc);
+                                    #(#stmts)*
+                                    #recv.set_index(#cc, #vv);
+                                }
+                            });
+                            *e = new;
+                            self.ctx.used("R13");
+                            syn::visit_mut::visit_expr_mut(self, e);
+                            return;
+                        }
+                    }
+                }
                 // R13m: `for v in M.values_mut() { .. v.method(..) / *v .. }` on a listed map -> index loop that copies the value out
                 // (value_at), runs the body on the copy and writes it back at the same position (set_index)
                 if let (syn::Expr::MethodCall(m), syn::Pat::Ident(vid)) = (&*fl.expr, &*fl.pat) {
